@@ -789,3 +789,43 @@ func IfaceFromSource(s Source) any {
 	}
 	return s.Get()
 }
+
+// ---- values loaded through pointers to interfaces, generic conversions, gaps ----
+
+func AssertLoaded(p *any, b bool) *T {
+	if b {
+		return new(T)
+	}
+	return (*p).(*T)
+}
+
+func LoadedIface(p *any) any {
+	return *p
+}
+
+type handleT uintptr
+
+func FromHandle(h handleT) unsafe.Pointer { return unsafe.Pointer(h) }
+
+func convG[U ~uintptr](h U) unsafe.Pointer { return unsafe.Pointer(h) }
+
+func FromGeneric(u uintptr) unsafe.Pointer { return convG(u) }
+
+func idG[X comparable](x X) X { return x }
+
+func ViaComparable(p *T) *T { return idG(p) }
+
+var gT T
+
+func GapState(q *T, b bool) *T {
+	p := &gT
+	if b {
+		p = q
+	}
+	r := new(T)
+	_ = r.V
+	if p == nil {
+		return nil
+	}
+	return &gT
+}
